@@ -577,7 +577,7 @@ func (g *c10Gen) genQueries() {
 			g.emitQ(c10RootSchema, false, "_", fmt.Sprintf("%s in [\"x\", %s]", id, lit))
 		}
 	}
-	nQ := 8000
+	nQ := 5000
 	if thorough {
 		nQ = 250000
 	}
